@@ -22,7 +22,7 @@ CORE == <<0, 0>>                       \* pseudo command: the executor; its out 
 XTask(n) == <<n, 0>>                   \* executor task hosting the command returned by the n-th update
 DoneProg == [k |-> "done", id |-> 0, tid |-> 1]
 
-CoreCmd == [host |-> ROOT, aborted |-> FALSE, alive |-> TRUE, out |-> {}, exec |-> TRUE, wreg |-> FALSE]
+CoreCmd == [host |-> ROOT, aborted |-> FALSE, alive |-> TRUE, out |-> {}, exec |-> TRUE, wreg |-> FALSE, pass |-> "spawn"]
 
 CInit ==
   /\ cmds = (CORE :> CoreCmd) /\ tasks = <<>> /\ ready = {} /\ run = NONE /\ reqs = <<>>
@@ -36,13 +36,33 @@ ProgFor(ev) ==
     [] ev.kind = "ev"   -> IF ToString(ev.tag) \in DOMAIN table.follow
                            THEN table.progs[table.follow[ToString(ev.tag)] + 1] ELSE DoneProg
 
+\* Legacy capability API: `update` calls capabilities, which spawn one executor task per leaf of the
+\* program (CapabilityContext::spawn), in program order; the tasks are plain executor tasks
+RECURSIVE LegacyTasks(_, _)
+LegacyTasks(c, inst) ==     \* sequence of [key, code]
+  CASE c.k = "done"   -> <<>>
+    [] c.k = "event"  -> << [key |-> <<inst, c.tid>>, code |-> << [op |-> "emit", tag |-> c.tag, src |-> [c |-> c.val]] >>] >>
+    [] c.k = "notify" -> << [key |-> <<inst, c.tid>>, code |-> << [op |-> "notify", tag |-> c.tag, src |-> [c |-> c.val]] >>] >>
+    [] c.k = "chain"  -> << [key |-> <<inst, c.tid>>, code |-> ChainCode(c)] >>
+    [] c.k = "async"  -> << [key |-> <<inst, c.tid>>, code |-> c.code] >>
+    [] c.k = "and"    -> LegacyTasks(c.a, inst) \o LegacyTasks(c.b, inst)
+    [] c.k = "all"    -> LET F[i \in 0..Len(c.cs)] == IF i = 0 THEN <<>> ELSE F[i - 1] \o LegacyTasks(c.cs[i].c, inst)
+                         IN F[Len(c.cs)]
+
 \* update(ev): the event is appended to the model; the returned command is spawned on the executor
 \* (CommandSpawner::spawn: a task that polls the command as a Stream and forwards its outputs)
 Update(S, ev, n) ==
-  LET x == XTask(n) IN
-  [S EXCEPT !.tasks = (x :> NewTask(CORE, << HostI(ProgFor(ev), "id", "id") >>, ZeroRegs, NoHandles, TRUE)) @@ @,
-            !.ready = @ \cup {x},
-            !.sq[CORE] = IF Fifo THEN Append(@, x) ELSE @]
+  LET x  == XTask(n)
+      lt == IF table.legacy THEN LegacyTasks(ProgFor(ev), n) ELSE <<>>
+      prog == IF table.legacy THEN DoneProg ELSE ProgFor(ev)
+      ltk == [i \in DOMAIN lt |-> lt[i].key]
+      newT == [k \in {lt[i].key : i \in DOMAIN lt} |->
+                 NewTaskL(CORE, (lt[CHOOSE i \in DOMAIN lt : lt[i].key = k]).code, ZeroRegs, NoHandles, TRUE, TRUE)]
+  IN
+  [S EXCEPT !.tasks = (x :> NewTask(CORE, << HostI(prog, "id", "id") >>, ZeroRegs, NoHandles, TRUE)) @@ newT @@ @,
+            !.ready = @ \cup {x} \cup DOMAIN newT,
+            !.cmds[CORE].pass = "spawn",
+            !.sq[CORE] = IF Fifo THEN @ \o ltk \o <<x>> ELSE @]
 
 LogEntry(i) == [kind |-> "ev", o |-> i.o, tag |-> i.tag, val |-> i.val]
 
@@ -70,7 +90,7 @@ CoreEffects == {i \in cmds[CORE].out : i.kind = "eff"}
 CoreReturn ==
   /\ phase = "run" /\ Quiescent
   /\ ~\E i \in cmds[CORE].out : i.kind = "ev"
-  /\ cmds' = [cmds EXCEPT ![CORE].out = {}]
+  /\ cmds' = [cmds EXCEPT ![CORE].out = {}, ![CORE].pass = "spawn"]    \* (the next run_all starts afresh)
   /\ reqs' = MarkHeld(reqs, cmds[CORE].out)
   /\ phase' = "idle"
   /\ UNCHANGED <<tasks, ready, run, joinreg, rq, sq, modelLog, table>>
